@@ -11,6 +11,9 @@ pub fn run(ctx: &mut Ctx) {
     for case in ctx.cases("lru", 1200, true) {
         ctx.run_case("lru", case, lru_model);
     }
+    for case in ctx.cases("ite_table", 600, true) {
+        ctx.run_case("ite_table", case, ite_table_model);
+    }
     for case in ctx.cases("paired", 900, true) {
         ctx.run_case("paired", case, paired_builders);
     }
@@ -102,6 +105,104 @@ fn lru_model(ctx: &mut Ctx, rng: &mut Rng) {
         ctx.sample(json!({"regime": "lru", "initial_bits": bits, "hash_style": style, "ops": nops, "grows": grows, "overwrites": conflicts,
             "history_head": hist.iter().take(12).collect::<Vec<_>>()}));
     }
+}
+
+/// the two ITE-cache adapters driven directly through the public `IteTable` trait with
+/// caller-supplied (colliding) hashes: what `get` returns for a standardised triple must be
+/// the value most recently inserted for exactly that triple (complement flag re-applied),
+/// never a value stored for another triple
+fn ite_table_model(ctx: &mut Ctx, rng: &mut Rng) {
+    use rsdd::builder::bdd::RobddBuilder;
+    use rsdd::builder::cache::{AllIteTable, Ite, IteTable, LruIteTable};
+    use rsdd::builder::BottomUpBuilder;
+    use rsdd::repr::{BddPtr, DDNNFPtr, VarLabel, VarOrder};
+    crate::caps::set_unique(Some(64));
+    let b: RobddBuilder<AllIteTable<BddPtr>> = RobddBuilder::new(VarOrder::linear_order(4));
+    crate::caps::set_unique(None);
+    let b = &b;
+    let mut pool: Vec<BddPtr> = vec![BddPtr::PtrTrue, BddPtr::PtrFalse];
+    for v in 0..4u64 {
+        pool.push(b.var(VarLabel::new(v), true));
+        pool.push(b.var(VarLabel::new(v), false));
+    }
+    for _ in 0..rng.range(2, 10) {
+        let (x, y) = (pool[rng.below(pool.len())], pool[rng.below(pool.len())]);
+        pool.push(if rng.bool() { b.and(x, y) } else { b.or(x, y) });
+    }
+    let bits = rng.below(5);
+    crate::caps::set_lru_bits(Some(bits));
+    let _ = rsdd::verif::take_counters();
+    let mut lru: LruIteTable<BddPtr> = Default::default();
+    crate::caps::set_lru_bits(None);
+    let mut all: AllIteTable<BddPtr> = Default::default();
+    // a small universe of triples, each bound to one hash for the whole history
+    let ntr = rng.range(2, 60);
+    // (distinct triples: a key is bound to ONE hash, as it is for every real user of the cache)
+    let mut triples: Vec<(BddPtr, BddPtr, BddPtr)> = Vec::new();
+    for _ in 0..ntr {
+        let t = (pool[rng.below(pool.len())], pool[rng.below(pool.len())], pool[rng.below(pool.len())]);
+        if !triples.contains(&t) {
+            triples.push(t);
+        }
+    }
+    let ntr = triples.len();
+    let style = rng.below(4);
+    let salt = rng.next();
+    let mut model: HashMap<(BddPtr, BddPtr, BddPtr), BddPtr> = HashMap::new();
+    let nops = rng.range(30, 800);
+    let mut hits = 0u64;
+    for step in 0..nops {
+        let k = rng.below(ntr);
+        let (f, g, h) = triples[k];
+        let compl = rng.bool();
+        let ite = if rng.chance(1, 12) {
+            Ite::IteConst(f)
+        } else if compl {
+            Ite::IteComplChoice { f, g, h }
+        } else {
+            Ite::IteChoice { f, g, h }
+        };
+        let hash = match style {
+            0 => IteTable::hash(&lru, &ite), // the adapter's own hash
+            1 => (k % 3) as u64,
+            2 => crate::rng::mix(k as u64 ^ salt),
+            _ => ((k as u64) << 1) | (salt & 1),
+        };
+        let is_const = matches!(ite, Ite::IteConst(_));
+        if rng.chance(1, 2) {
+            let v = pool[rng.below(pool.len())];
+            lru.insert(ite, v, hash);
+            all.insert(ite, v, hash);
+            if !is_const {
+                model.insert((f, g, h), if compl { v.neg() } else { v });
+            }
+            ctx.count("ite_table_inserts", 1);
+        } else {
+            ctx.count("ite_table_gets", 1);
+            let want = if is_const { Some(f) } else { model.get(&(f, g, h)).map(|v| if compl { v.neg() } else { *v }) };
+            let got_all = all.get(ite, hash);
+            if got_all != want {
+                ctx.violation("cache.ite_table.all", "AllIteTable::get is not the value most recently inserted for that standard triple",
+                    json!({"step": step, "triple": k, "complemented_choice": compl, "const": is_const}));
+                return;
+            }
+            match lru.get(ite, hash) {
+                None if !is_const => {}
+                got if got == want => hits += 1,
+                got => {
+                    ctx.violation("cache.ite_table.lru", "LruIteTable::get returned a value that was not the most recent one inserted for exactly that standard triple",
+                        json!({"step": step, "triple": k, "complemented_choice": compl, "const": is_const, "hash": hash.to_string(),
+                            "hash_style": style, "initial_bits": bits, "got_is_some": got.is_some(), "expected_is_some": want.is_some()}));
+                    return;
+                }
+            }
+        }
+    }
+    let (_, grows, conflicts) = rsdd::verif::take_counters();
+    ctx.count("ite_table_lru_hits", hits);
+    ctx.count("ite_table_lru_grows", grows);
+    ctx.count("ite_table_lru_overwrites", conflicts);
+    ctx.case_eval(Some(crate::rng::mix(salt ^ (ntr as u64) << 5 ^ bits as u64)));
 }
 
 fn paired_builders(ctx: &mut Ctx, rng: &mut Rng) {
